@@ -24,6 +24,10 @@
 (*   and, when start = 0, the arrays Build would produce with Occ.         *)
 (*   All sequences over Letters up to MaxLen, all k in Ks, all sub-ranges  *)
 (*   (letters before start are drawn from Pre).                            *)
+(* Part 4 (KmerQueries.tla): the life of an index - New reads the letters, *)
+(*   Build, then any history of queries and of writes by the caller into   *)
+(*   what it was handed; every answer is Answer(S,k,x), a function of the  *)
+(*   indexed sequence only.                                                *)
 (* Variant selects the code as written ("code") or a deliberately wrong    *)
 (* variant (negative controls).                                            *)
 (***************************************************************************)
@@ -35,6 +39,7 @@ CONSTANTS
   Ks,        \* word lengths
   MaxLen,    \* longest sequence
   Variant    \* "code" | "high_before_increment" | "inclusive_prefix" | "no_mask"
+             \* | "alias_answers" (KmerQueries.tla only: a query hands out a window of the position table)
 
 ---------------------------------------------------------------------------
 (* letters and words *)
@@ -80,6 +85,12 @@ Windows(S, k, lo, hi) == {p \in lo..(hi - k) : ValidWin(S, p, k)}
 
 \* ascending enumeration of a set of integers within lo..hi
 AscSeq(set, lo, hi) == SelectSeq([i \in 1..(hi - lo + 1) |-> lo + i - 1], LAMBDA p : p \in set)
+
+\* what a position query for the packed word x must answer on an index of S, whenever it is asked:
+\* the occurrences of the word in increasing order - a function of the indexed sequence only
+Answer(S, k, x) == AscSeq(Occ(S, k, Dec(x, k)), 0, Len(S) - k)
+\* what Check() must answer: every valid window confirmed
+CheckAnswer(S, k) == <<TRUE, Cardinality(Windows(S, k, 0, Len(S)))>>
 
 \* what iterating over [lo,hi) must report: <<position, packed word>> in increasing position
 DeclVisits(S, k, lo, hi) ==
@@ -273,13 +284,13 @@ IndexExact ==
         b == Place(m.vis, PrefixSums(cnt, Pow4(k)), L - k + 1)
         codes == WinCodes(S, k)
     IN /\ \A x \in words :
-            LET occ == AscSeq(Occ(S, k, Dec(x, k)), 0, L - k)      \* the occurrences of x, increasing
+            LET occ == Answer(S, k, x)                             \* the occurrences of x, increasing
             IN /\ cnt[x] = Len(occ)
                /\ PositionsOp(b, x) = occ
                /\ AscSeq(OccC(codes, x), 0, L - k) = occ
        /\ cnt[Pow4(k)] = 0
        /\ ~b.panic
-       /\ CheckOp(m.vis, b) = <<TRUE, Cardinality(Windows(S, k, 0, L))>>
+       /\ CheckOp(m.vis, b) = CheckAnswer(S, k)
        /\ \A lo \in 0..L : DeclVisitsC(codes, k, lo, L) = DeclVisits(S, k, lo, L)
 
 \* encoding, formatting, GC and reverse complement agree with the string operations (per k; evaluated
